@@ -2,10 +2,13 @@ package main
 
 import (
 	"fmt"
+	"net/http"
+	"net/http/httptest"
 	nurl "net/url"
 	"os"
 	"reflect"
 	"strings"
+	"time"
 
 	distiller "github.com/markusmobius/go-domdistiller"
 )
@@ -188,6 +191,79 @@ func runC13(ctx *Ctx) {
 		}
 	}
 	corr.run(ctx)
+	if ctx.Replay == "" {
+		urlEntryPoint(ctx)
+	}
+}
+
+// urlEntryPoint: ApplyForURL against a loopback server that serves pages directly and behind
+// redirects (to a trailing-slash path, to another folder, through two hops, with a query).
+// Result.URL must be the address the caller supplied, and every other field must equal what
+// ApplyForReader gives for the served bytes with that address as page URL.
+func urlEntryPoint(ctx *Ctx) {
+	rep := ctx.Rep
+	page := func(path string) string {
+		key := strings.Trim(path, "/")
+		if i := strings.LastIndex(key, "/"); i >= 0 {
+			key = key[i+1:]
+		}
+		g := newPageGen(newRng(ctx.Seed, "C13srv/"+key))
+		body := g.blocks(6, 0) + simplePager(g.R, "/plain/"+key, 4, 2)
+		return "<html><head><title>A served page for the url entry point</title></head><body>" + body + "</body></html>"
+	}
+	srv := httptest.NewServer(http.HandlerFunc(func(w http.ResponseWriter, r *http.Request) {
+		p := r.URL.Path
+		switch {
+		case strings.HasPrefix(p, "/redir/"):
+			http.Redirect(w, r, "/plain/"+strings.TrimPrefix(p, "/redir/")+"/", http.StatusFound)
+		case strings.HasPrefix(p, "/moved/"):
+			http.Redirect(w, r, "/archive/2024/"+strings.TrimPrefix(p, "/moved/")+"?from=moved", http.StatusMovedPermanently)
+		case strings.HasPrefix(p, "/hop/"):
+			http.Redirect(w, r, "/redir/"+strings.TrimPrefix(p, "/hop/"), http.StatusTemporaryRedirect)
+		default:
+			w.Header().Set("Content-Type", "text/html; charset=utf-8")
+			fmt.Fprint(w, page(p))
+		}
+	}))
+	defer srv.Close()
+	for k := 0; k < ctx.pick(8, 80); k++ {
+		for _, route := range []string{"plain", "redir", "moved", "hop"} {
+			for _, q := range []string{"", "?page=2"} {
+				for algo := 0; algo < 2; algo++ {
+					supplied := fmt.Sprintf("%s/%s/a%d%s", srv.URL, route, k, q)
+					opts := &distiller.Options{PaginationAlgo: distiller.PaginationAlgo(algo)}
+					if k%2 == 1 {
+						opts.OriginalURL, _ = nurl.Parse("http://caller.example.org/own/url")
+					}
+					rep.Evaluations++
+					rep.hist("url-entry:" + route)
+					res, err := distiller.ApplyForURL(supplied, 5*time.Second, opts)
+					if err != nil || res == nil {
+						rep.hist("applyforurl-error")
+						continue
+					}
+					rp := map[string]interface{}{"entry": "ApplyForURL", "route": route, "supplied": strings.Replace(supplied, srv.URL, "http://LOOPBACK", 1), "algo": algo}
+					sig := map[string]string{"clause": "url-field", "field": "URL", "entry": "ApplyForURL", "route": route}
+					if res.URL != supplied {
+						rep.violate(sig, fmt.Sprintf("ApplyForURL: Result.URL=%q, supplied %q", strings.Replace(res.URL, srv.URL, "http://LOOPBACK", 1), rp["supplied"]), rp)
+						continue
+					}
+					u, _ := nurl.Parse(supplied)
+					ref, err := distiller.ApplyForReader(strings.NewReader(page("/a"+fmt.Sprint(k))), &distiller.Options{OriginalURL: u, PaginationAlgo: distiller.PaginationAlgo(algo)})
+					if err != nil || ref == nil {
+						continue
+					}
+					a, b := viewOf(res), viewOf(ref)
+					if f, same := a.sameExceptPagination(b); !same || a.Next != b.Next || a.Prev != b.Prev {
+						if same {
+							f = "PaginationInfo"
+						}
+						rep.violate(map[string]string{"clause": "url-entry-differs", "field": f, "route": route}, fmt.Sprintf("ApplyForURL and ApplyForReader with the supplied address as page URL differ in %s", f), rp)
+					}
+				}
+			}
+		}
+	}
 }
 
 func hashStr(s string) uint64 {
